@@ -2,8 +2,8 @@
 # usage: harness/seedround.sh Cxx   -- import /tmp/seed2_Cxx/seeded/*, remove the scratch worktree, evaluate each (with tests)
 cd /verif
 P=$1
-N=$(/venv/bin/python harness/seedimport.py $P /tmp/seed2_$P | tail -1)
-git -C /repo worktree remove --force /tmp/seed2_$P 2>/dev/null; rm -rf /tmp/seed2_$P /tmp/${P}_scratch
+N=$(/venv/bin/python harness/seedimport.py $P /tmp/${SEEDPFX:-seed2}_$P | tail -1)
+git -C /repo worktree remove --force /tmp/${SEEDPFX:-seed2}_$P 2>/dev/null; rm -rf /tmp/${SEEDPFX:-seed2}_$P /tmp/${P}_scratch
 for s in $N; do
   /venv/bin/python harness/seedtest.py $s --tests 2>&1 | grep "^SEED" | cut -c1-260
   /venv/bin/python -c "
